@@ -37,8 +37,8 @@ PLANS = {
         "floor": 2000,
     },
     "C05": {
-        "quick": [sess("alloc", "C05", 500, 30), sess("rootfill", "C05", 200, 10), sess("dirfill", "C05", 150, 12), job("c05cycle"), sess("alloc", "C05", 150, 12, args={"builder": 1, "nolibwalk": 1})],
-        "thorough": [sess("alloc", "C05", 6000, 420), sess("rootfill", "C05", 3000, 120), sess("dirfill", "C05", 3000, 180), job("c05cycle", timeout=3600), sess("alloc", "C05", 2000, 120, args={"builder": 1, "nolibwalk": 1})],
+        "quick": [sess("alloc", "C05", 500, 30), sess("rootfill", "C05", 200, 10), sess("dirfill", "C05", 150, 12), job("c05cycle"), sess("alloc", "C05", 150, 12, args={"builder": 1, "nolibwalk": 1}), job("c05fault")],
+        "thorough": [sess("alloc", "C05", 6000, 420), sess("rootfill", "C05", 3000, 120), sess("dirfill", "C05", 3000, 180), job("c05cycle", timeout=3600), sess("alloc", "C05", 2000, 120, args={"builder": 1, "nolibwalk": 1}), job("c05fault")],
         "floor": 2000,
     },
     "C10": {
@@ -150,7 +150,7 @@ LEVEL_TEXT = {
     "C02": "Exploration: byte-array+cursor model monitor on every read/write/seek/truncate of random interleavings over 1-6 open files plus an executed boundary grid around cluster multiples for every cluster size class.",
     "C03": "Exploration: independent fsck of the raw image after every single call of random and fill-to-full histories; invariant-at-quiescent-point monitor.",
     "C04": "Exploration: three-way comparison (session model, second mount of a copy, independent decode) at every call boundary, plus extents-vs-content for every live handle.",
-    "C05": "Exploration: online conservation monitor (stats() == raw free count after every call, FS-info after every unmount, out-of-space admissibility) over allocation heavy histories on tiny and regular volumes.",
+    "C05": "Exploration: online conservation monitor (stats() == raw free count after every call, FS-info after every unmount, out-of-space admissibility) over allocation heavy histories on tiny and regular volumes; plus a fault variant: a write whose payload transfer fails once (with and without a successful retry) followed by close and remove must return every cluster.",
     "C10": "Exploration: byte-level comparison of FAT copies / reserved entries / padding / FAT32 top nibbles between consecutive call boundaries.",
     "C11": "Exploration: offline checker over the device write log of every call against the independent region/ownership map.",
     "C12": "Exploration: temporal monitor (structural-change latch vs. dirty bit) at every call boundary, with a copy of the image mounted at every boundary.",
